@@ -424,6 +424,7 @@ theorem From_highlight (I line : List Char) (hs he : Nat) (out : List Char) (h :
     exact ⟨From_replicate I _ _ (by decide), From_fixed I _ (by decide)⟩
   · split at h
     · cases h
+      exact From_replicate I _ _ (by decide)
     · cases h
       rw [From_append]
       exact ⟨From_replicate I _ _ (by decide), From_replicate I _ _ (by decide)⟩
